@@ -750,6 +750,7 @@ def run(ctx):
                         ctx.violation(leak_key("connect", r["leaks"], None), "connect: " + "; ".join(r["leaks"]),
                                       {"op": "connect", "protocols": [p.name for p in subset], "failing_index": fail_at, "kind": kind, "observed": r})
     ctx.exhaustive = True
+    ctx.traces = ctx.evaluations
     ctx.trusted += [
         "harness/gen_skeleton.py + the effect/guard/no-fail tables in harness/c18.py (printed in this evidence under 'skeletons'): trusted to emit what the source says; fail closed on unsupported constructs",
         "the skeleton abstracts data: a call either returns, raises or (if awaited) is cancelled; that a given collaborator really fails that way is what the fault enumeration samples",
